@@ -463,7 +463,8 @@ def _shrink_failures(mod, rec, tier):
         if f.get('shrunk'):
             continue
         kind = f['kind']
-        if kind in getattr(mod, 'NO_SHRINK', ()):
+        if kind not in getattr(mod, 'SHRINK', ()):
+            # the generic JSON shrinker is only sound for kinds whose every JSON-smaller case is still inside the domain
             continue
 
         def still(c, bucket=bucket, kind=kind):
